@@ -102,7 +102,10 @@ RHS_FAMILY = {'str_bin': 'str', 'str_hex': 'str', 'str_oct': 'str', 'str_mix': '
               'memoryview_cast': 'bytes-like', 'memoryview_strided': 'bytes-like', 'array_H': 'bytes-like',
               'bytesio': 'file-like', 'filehandle': 'file-like',
               'list': 'iterable', 'tuple': 'iterable', 'gen': 'iterable', 'truthy': 'iterable', 'truthy_iter': 'iterable',
-              'bitarray': 'bitarray', 'frozenbitarray': 'bitarray'}
+              'bitarray': 'bitarray', 'frozenbitarray': 'bitarray',
+              # instances of subclasses of the promotable built-in types stand for their base value
+              'str_sub': 'str', 'str_enum': 'str', 'bytes_sub': 'bytes-like', 'bytearray_sub': 'bytes-like',
+              'memoryview_ro': 'bytes-like', 'list_sub': 'iterable', 'tuple_sub': 'iterable'}
 
 
 class _K:
@@ -255,6 +258,9 @@ def build_obj(spec, lsb0: bool, made: list):
         x = cls(array.array('B', to_raw(bits)))
     elif r == 'bytesio_auto':
         x = cls(io.BytesIO(to_raw(bits)))
+    elif r.startswith('rhs:'):
+        # the auto initialiser given exactly what an operand of == would be given
+        x = cls(build_rhs([r[4:], bits, L], made))
     elif r == 'list':
         x = cls([int(ch) for ch in bits])
     elif r == 'tuple':
@@ -414,7 +420,7 @@ def build_file(cls, r, bits, a, made):
 def pick_route(rng, clsname, bits, lsb0, short_ok=False):
     L = len(bits)
     c = ['bin', 'bin', 'token_bin', 'list', 'tuple', 'gen', 'truthy', 'truthy_iter', 'bitarray_auto', 'bitarray_little_auto', 'frozenbitarray_auto',
-         'slice', 'slice', 'copy_from']
+         'slice', 'slice', 'copy_from', 'rhs:str_sub', 'rhs:str_enum', 'rhs:list_sub', 'rhs:tuple_sub']
     if L % 4 == 0:
         c += ['hex'] + (['token_hex'] if L else [])
     if L % 3 == 0:
@@ -424,7 +430,8 @@ def pick_route(rng, clsname, bits, lsb0, short_ok=False):
     if 0 < L <= 5000:
         c += ['token_uint']
     if L % 8 == 0:
-        c += ['bytes_auto', 'bytearray_auto', 'memoryview_auto', 'array_auto', 'bytesio_auto']
+        c += ['bytes_auto', 'bytearray_auto', 'memoryview_auto', 'array_auto', 'bytesio_auto', 'rhs:bytes_sub', 'rhs:bytearray_sub',
+              'rhs:memoryview_ro', 'rhs:memoryview_cast', 'rhs:array_H']
         if L >= 8:
             c += ['file_name', 'file_whole', 'file_off0', 'file_handle']
     if not lsb0:
@@ -553,7 +560,8 @@ def gen_objs_case(ctx):
 
 def rhs_for(rng, bits):
     L = len(bits)
-    kinds = ['str_bin', 'str_bin', 'str_mix', 'list', 'tuple', 'gen', 'truthy', 'truthy_iter', 'bitarray', 'frozenbitarray']
+    kinds = ['str_bin', 'str_bin', 'str_mix', 'list', 'tuple', 'gen', 'truthy', 'truthy_iter', 'bitarray', 'frozenbitarray',
+             'str_sub', 'str_enum', 'list_sub', 'tuple_sub']
     if L % 4 == 0 and L:
         kinds += ['str_hex', 'str_hex']
     if L % 3 == 0 and L:
@@ -561,7 +569,8 @@ def rhs_for(rng, bits):
     if 0 < L <= 5000:
         kinds += ['str_uint']
     if L % 8 == 0:
-        kinds += ['bytes', 'bytes', 'bytearray', 'memoryview', 'memoryview_cast', 'memoryview_strided', 'array', 'array_H', 'bytesio']
+        kinds += ['bytes', 'bytes', 'bytearray', 'memoryview', 'memoryview_cast', 'memoryview_strided', 'array', 'array_H', 'bytesio',
+                  'bytes_sub', 'bytearray_sub', 'memoryview_ro']
         if L >= 8:
             kinds += ['filehandle']
     return [rng.choice(kinds), bits, rng.randrange(8)]
@@ -592,6 +601,19 @@ def build_rhs(rhs, made):
         return mix_token(bits, (0, 1, 2, L // 8)[style % 4], style // 2)
     if kind == 'str_uint':
         return ('uint:%d=%d', 'u%d=%d', 'uint%d = %d', 'uintbe:%d=%d')[style % 4 if L % 8 == 0 else style % 3] % (L, int(bits, 2))
+    if kind in ('str_sub', 'str_enum'):
+        text = (('0b' + bits) if bits else '') if style % 2 or L % 4 or not L else '0x' + hexof(bits)
+        return util.StrSub(text) if kind == 'str_sub' else util.str_enum_member(text)
+    if kind == 'bytes_sub':
+        return util.BytesSub(to_raw(bits))
+    if kind == 'bytearray_sub':
+        return util.BytearraySub(to_raw(bits))
+    if kind == 'memoryview_ro':
+        return memoryview(bytearray(to_raw(bits))).toreadonly()
+    if kind == 'list_sub':
+        return util.ListSub(int(ch) for ch in bits)
+    if kind == 'tuple_sub':
+        return util.TupleSub(ch == '1' for ch in bits)
     if kind == 'bytes':
         return to_raw(bits)
     if kind == 'bytearray':
